@@ -103,7 +103,7 @@ def fmt_num(x):
     return str(x)
 
 
-def _dump(R, si, tier, only):
+def _dump(R, si, tier, only, part=0):
     th = tier == "thorough"
     p, bins, pix, symm, w = make(si)
     n = len(bins)
@@ -116,7 +116,7 @@ def _dump(R, si, tier, only):
     R.add("states")
     R.add("traces")
     kk = 0
-    for (r1, r2) in regions(bins, th):
+    for (r1, r2) in regions(bins, th)[part::8]:
         i0, i1 = extent_of(bins, r1)
         j0, j1 = extent_of(bins, r2) if r2 else (i0, i1)
         for join, fill, bal, ob_ids, ob_st, hdr in itertools.product((0, 1), repeat=6):
@@ -187,7 +187,7 @@ def _dump(R, si, tier, only):
                         clause = "one-based-ids-has-no-effect"
                     R.mismatch(clause, inner, f"got={got[:6]} want={want[:6]}")
     # single sweeps: -t chroms / bins, -c, --annotate
-    for extra, check in ((["-t", "chroms"], "chroms"), (["-t", "bins", "-H"], "bins"), (["-t", "bins", "-c", "start,gc"], "bins-cols"),
+    for extra, check in [] if part else ((["-t", "chroms"], "chroms"), (["-t", "bins", "-H"], "bins"), (["-t", "bins", "-c", "start,gc"], "bins-cols"),
                          (["--annotate", "gc", "-H"], "annotate")):
         inner = {"extra": extra}
         if only is not None and only != inner:
@@ -214,7 +214,8 @@ def _dump(R, si, tier, only):
             wanta = [[str(i), str(j), str(int(M[i, j])), format(0.5 + i / 8, ".17g"), format(0.5 + j / 8, ".17g")] for (i, j) in keys]
             if lines[0] != ["bin1_id", "bin2_id", "count", "gc1", "gc2"] or lines[1:] != wanta:
                 R.mismatch("dump-annotate", inner, f"{lines[:3]} want={wanta[:2]}")
-    R.sample({"leg": "dump", "cooler": si, "regions": regions(bins, th)[:8], "flags": "--join x -f x -b x --one-based-ids x --one-based-starts x -H x -k"})
+    if part == 0:
+        R.sample({"leg": "dump", "cooler": si, "regions": regions(bins, th)[:8], "flags": "--join x -f x -b x --one-based-ids x --one-based-starts x -H x -k"})
 
 
 def _roundtrip(R, si, only):
@@ -382,7 +383,8 @@ def _load_layouts(R, only):
 
 def units(tier):
     for si in range(len(SPECS)):
-        yield {"leg": "dump", "s": si}
+        for part in range(8):
+            yield {"leg": "dump", "s": si, "part": part}
         yield {"leg": "roundtrip", "s": si}
     for part in range(12):
         yield {"leg": "layouts", "nval": 0, "part": part, "of": 12}
@@ -399,7 +401,7 @@ def units(tier):
 def run(unit, R, tier, only=None):
     leg = unit["leg"]
     if leg == "dump":
-        _dump(R, unit["s"], tier, only)
+        _dump(R, unit["s"], tier, only, unit.get("part", 0))
     elif leg == "roundtrip":
         _roundtrip(R, unit["s"], only)
     elif leg == "layouts":
